@@ -126,7 +126,9 @@ def correspondence(ctx):
         full = counts > 0
         ctx.count("vw:with-empty-cluster" if not np.all(full) else "vw:all-clusters-populated")
         mv, mw = core.dec(vw["var"]), core.dec(vw["w"])
-        vtol = 1e-7 * sc["spread"] ** 2
+        # rounding error of the variances is relative to the squared deviations from the assigned centroid (integer-valued data
+        # can have deviations far above the nominal spread, and exact variances of 0)
+        vtol = 1e-7 * sc["spread"] ** 2 + 1e-12 * float(np.max((np.asarray(x, dtype=float) - np.asarray(sc["cent"], dtype=float)[ml]) ** 2))
         for op, xin in (("kmeans_vw:numpy", x), ("kmeans_vw:dask", dask_of(sc))):
             r = core.impl(lambda: m.get_variances_and_weights_for_each_cluster(xin))
             # an empty cluster has no variance to speak of: its row is not compared; every weight is
@@ -155,7 +157,7 @@ def correspondence(ctx):
         ctx.count("gmm_init")
         ctx.case(["gi", core.tolist(sc["x"]), core.tolist(c), floor], nontrivial=sc["K"] >= 2)
         ok = np.array_equal(np.asarray(g.means), c) and core.close(core.dec(o["g_w"]), np.asarray(g.weights), 1e-12, 0) \
-            and core.close(core.dec(o["g_v"]), np.asarray(g.variances), 1e-7, 1e-7 * sc["spread"] ** 2)
+            and core.close(core.dec(o["g_v"]), np.asarray(g.variances), 1e-7, 1e-7 * sc["spread"] ** 2 + 1e-12 * float(np.max((np.asarray(sc["x"], dtype=float) - c[lab]) ** 2)))
         if not ok:
             bad.append({"op": "kmeans_vw:gmm_init", "input": {**{k: sc[k] for k in ("K", "D", "x", "cent")}, "floor": floor, "kmeans_centroids": c},
                         "model": {"w": core.dec(o["g_w"]), "v": core.dec(o["g_v"])}, "impl": {"w": np.asarray(g.weights), "m": np.asarray(g.means), "v": np.asarray(g.variances)}})
@@ -194,6 +196,9 @@ def oracle(sc):
     full = counts > 0
     vref = np.array([x[lab_ref == k].var(axis=0) if full[k] else np.zeros(x.shape[1]) for k in range(len(cent))])
     spread2 = float(np.max(vref)) if np.max(vref) > 0 else 1.0
+    # the variance is computed from deviations to the machine's centroid: its rounding error is relative to the largest such
+    # squared deviation (which exceeds the cluster variance when the centroid is not the cluster mean, e.g. repeated points)
+    dev2 = float(np.max((x - np.asarray(cent, dtype=float)[lab_ref]) ** 2))
     for name, xin in (("numpy", xin_), ("dask", dask_of(sc))):
         r = core.impl(lambda: m.get_variances_and_weights_for_each_cluster(xin))
         if isinstance(r, core.ImplError):
@@ -202,7 +207,7 @@ def oracle(sc):
         if not core.close(w, counts / counts.sum(), 1e-12, 0) or abs(w.sum() - 1) > 1e-12:
             return {"sig": "weights-not-assigned-fractions", "what": f"{name}: {w.tolist()} vs {(counts / counts.sum()).tolist()}"}
         v, vref_ = v[full], vref[full]
-        if np.any(v < -1e-9 * spread2) or not np.all(np.abs(v - vref_) <= 1e-6 * spread2):
+        if np.any(v < -1e-9 * spread2 - 1e-12 * dev2) or not np.all(np.abs(v - vref_) <= 1e-6 * spread2 + 1e-12 * dev2):
             return {"sig": "variances-not-cluster-variances", "what": f"{name}: offset {sc.get('offset')} max |var - biased sample variance| = {np.max(np.abs(v - vref_))} "
                     f"(largest cluster variance {spread2}); min var {v.min()}"}
     return None
@@ -233,7 +238,45 @@ def search(ctx):
     if f and f["sig"] not in seen:
         f["input"] = {"big_seed": ctx.seed + 5}
         fails.append(f)
+    # a GMM initialised by a k-means trainer starts from exactly that trainer's centroids (data in every legal dtype)
+    from bob.learn.em import GMMMachine, KMeansMachine
+    for i in range(ctx.budget(10, 60)):
+        sc = scenario(ctx, i)
+        if i % 2 and np.asarray(sc["x"]).dtype.kind == "f":
+            sc["x"] = np.rint(np.asarray(sc["x"]) / sc["spread"] * 3).astype(["int64", "int32", "int16"][i % 3])
+            sc["cent"] = np.asarray(sc["cent"]) / sc["spread"] * 3
+        steps = int(ctx.rng.integers(1, 4))
+        kmt = KMeansMachine(sc["K"], init_method=np.array(sc["cent"], dtype=float), max_iter=steps, convergence_threshold=None)
+        g = GMMMachine(sc["K"], k_means_trainer=kmt, max_fitting_steps=0, convergence_threshold=None)
+        ref = KMeansMachine(sc["K"], init_method=np.array(sc["cent"], dtype=float), max_iter=steps, convergence_threshold=None)
+        r = core.impl(lambda: (g.fit(sc["x"]), ref.fit(sc["x"])))
+        ctx.count("search:gmm-from-kmeans")
+        ctx.case(["gi-s", core.tolist(sc["x"]), steps], nontrivial=True)
+        if isinstance(r, core.ImplError) or not np.all(np.isfinite(np.asarray(ref.centroids_, float))):
+            continue
+        if not np.array_equal(np.asarray(g.means, dtype=float), np.asarray(ref.centroids_, dtype=float)) and "gmm-init-not-kmeans-centroids" not in seen:
+            seen.add("gmm-init-not-kmeans-centroids")
+            fails.append({"sig": "gmm-init-not-kmeans-centroids", "what": f"{np.asarray(sc['x']).dtype} data, {steps} k-means iteration(s): GMM means {np.asarray(g.means).tolist()} vs k-means centroids {np.asarray(ref.centroids_).tolist()}",
+                          "input": {"gmm_init": True, "K": sc["K"], "x": sc["x"], "x_dtype": str(np.asarray(sc["x"]).dtype), "cent": sc["cent"], "steps": steps}})
+    # a machine with several hundred centroids (a large codebook / UBM initialisation) asked about a few rows
+    many = many_scenario(ctx.seed + 9)
+    ctx.count("search:several-hundred-centroids")
+    ctx.case(["many", ctx.seed], nontrivial=True)
+    f = oracle(many)
+    if f and f["sig"] not in seen:
+        f["input"] = {"many_seed": ctx.seed + 9}
+        fails.append(f)
     return fails
+
+
+def many_scenario(seed):
+    r = np.random.default_rng(seed)
+    K, D = int(r.integers(257, 700)), 2
+    N = int(r.integers(10, 120))
+    centers = r.normal(0, 40, size=(K, D))
+    lab = r.integers(0, K, N)
+    x = centers[lab] + 0.01 * r.normal(size=(N, D))
+    return dict(K=K, D=D, x=x, x_dtype=str(x.dtype), cent=centers, sizes=gen.random_composition(r, N), spread=0.01, offset=0.0)
 
 
 def big_scenario(seed):
@@ -247,6 +290,18 @@ def big_scenario(seed):
 
 
 def replay(d):
+    if d["input"].get("gmm_init"):
+        from bob.learn.em import GMMMachine, KMeansMachine
+        i = d["input"]
+        x = np.asarray(i["x"]).astype(i["x_dtype"])
+        kmt = KMeansMachine(i["K"], init_method=np.array(i["cent"], dtype=float), max_iter=i["steps"], convergence_threshold=None)
+        g = GMMMachine(i["K"], k_means_trainer=kmt, max_fitting_steps=0, convergence_threshold=None).fit(x)
+        ref = KMeansMachine(i["K"], init_method=np.array(i["cent"], dtype=float), max_iter=i["steps"], convergence_threshold=None).fit(x)
+        if not np.array_equal(np.asarray(g.means, dtype=float), np.asarray(ref.centroids_, dtype=float)):
+            return {"sig": "gmm-init-not-kmeans-centroids", "what": f"{np.asarray(g.means).tolist()} vs {np.asarray(ref.centroids_).tolist()}"}
+        return None
+    if "many_seed" in d["input"]:
+        return oracle(many_scenario(d["input"]["many_seed"]))
     if "big_seed" in d["input"]:
         return oracle(big_scenario(d["input"]["big_seed"]))
     return oracle(d["input"])
